@@ -185,6 +185,9 @@ class Parser:
         return self.next_token()
 
     def _default_operand(self) -> bool:
+        if self._op_code is not OpCode.COLOR:
+            return self.trigger_error('"default" not supported for {}'.format(
+                self._op_code.name.lower()))
         self._add_instruction(OpCode.MOVEQ, Operand.DEFAULT, Register.OPERAND)
         self._add_instruction(self._op_code)
         return self.next_token()
@@ -248,6 +251,10 @@ class Parser:
             if operand is not Operand.LIGHT:
                 return self.token_error(
                     '"{} not allowed with groups or locations.')
+            if self._op_code is not OpCode.COLOR:
+                return self.trigger_error(
+                    'Rows and columns not supported for {}'.format(
+                        self._op_code.name.lower()))
             if not MatrixParser(self).matrix_spec():
                 return False
             operand = Operand.MATRIX_LIGHT
